@@ -237,5 +237,70 @@ theorem hasDup_iff : ∀ {l : List String}, hasDup l = true ↔ ¬ l.Nodup
       · exact Or.inl hx
       · exact Or.inr fun h2 => h ⟨hx, h2⟩
 
+/-! ## the keys of the emitted "properties" object and of map-valued keywords -/
+
+theorem res_bind_eq_ok {α β} {x : Res α} {f : α → Res β} {b : β} (h : Res.bind x f = .ok b) :
+    ∃ a, x = .ok a ∧ f a = .ok b := by
+  cases x with
+  | ok a => exact ⟨a, rfl, h⟩
+  | fuel => cases h
+  | panic => cases h
+  | err => cases h
+
+theorem mSchemaEntries_keys {st : Store} {rec : MRec} : ∀ {l : List (String × NodeId)} {es : List (String × Json)},
+    mSchemaEntries st rec l = .ok es → es.map (·.1) = l.map (·.1)
+  | [], es, h => by cases h; rfl
+  | (k, x) :: l, es, h => by
+    simp only [mSchemaEntries] at h
+    obtain ⟨j, _, h2⟩ := res_bind_eq_ok h
+    obtain ⟨js, h3, h4⟩ := res_bind_eq_ok h2
+    cases h4
+    simp only [List.map_cons, mSchemaEntries_keys h3]
+
+theorem orderedKeys_isSome {α} {props : List (String × α)} {order : List String} {k : String}
+    (hk : k ∈ orderedKeys props order) : (Json.lookup k props).isSome = true := by
+  rw [orderedKeys_blocks, List.mem_append] at hk
+  rcases hk with hk | hk
+  · exact (List.mem_filter.1 hk).2
+  · have := (sortStrings_perm' _).mem_iff.1 hk
+    exact lookup_isSome_iff_mem_keys.2 (mem_restKeys.1 this).1
+
+theorem filterMap_lookup_keys {α} {props : List (String × α)} : ∀ (ks : List String),
+    (∀ k, k ∈ ks → (Json.lookup k props).isSome = true) →
+    (ks.filterMap fun k => (Json.lookup k props).map fun v => (k, v)).map (·.1) = ks
+  | [], _ => rfl
+  | k :: ks, h => by
+    have hk := h k List.mem_cons_self
+    cases hv : Json.lookup k props with
+    | none => rw [hv] at hk; cases hk
+    | some v =>
+      simp only [List.filterMap_cons, hv, Option.map_some, List.map_cons,
+        filterMap_lookup_keys ks (fun k' hk' => h k' (List.mem_cons_of_mem _ hk'))]
+
+/-- the keys of the "properties" object are exactly `orderedKeys`, in that order -/
+theorem mProperties_keys {st : Store} {rec : MRec} {props : List (String × NodeId)} {order : List String} {j : Json}
+    (h : mProperties st rec props order = .ok j) :
+    ∃ es, j = .obj es ∧ es.map (·.1) = orderedKeys props order := by
+  unfold mProperties at h
+  obtain ⟨es, h1, h2⟩ := res_bind_eq_ok h
+  cases h2
+  refine ⟨es, rfl, ?_⟩
+  rw [mSchemaEntries_keys h1]
+  exact filterMap_lookup_keys _ fun k hk => orderedKeys_isSome hk
+
+/-- the keys of a `map[string]*Schema` keyword are written in ascending order -/
+theorem mSchemaMap_keys {st : Store} {rec : MRec} {kvs : List (String × NodeId)} {j : Json}
+    (h : mSchemaMap st rec kvs = .ok j) :
+    ∃ es, j = .obj es ∧ es.map (·.1) = (sortKV kvs).map (·.1) := by
+  unfold mSchemaMap at h
+  obtain ⟨es, h1, h2⟩ := res_bind_eq_ok h
+  cases h2
+  exact ⟨es, rfl, mSchemaEntries_keys h1⟩
+
+theorem sortKV_keys_sorted {α} (kvs : List (String × α)) : ((sortKV kvs).map (·.1)).Pairwise (· ≤ ·) := by
+  have h := sortKV_sorted kvs
+  rw [List.pairwise_map]
+  exact h
+
 end Go
 end JSV
